@@ -393,7 +393,7 @@ func TestCheck(t *testing.T) {
 	r := mon.Start(t, "C04", "exploration")
 	defer r.Finish()
 	r.SetRule("valid (inner, outer) ECH offers from the independent generator, then one catalogued rule violation (R1..R13, single-fault) or two (multi-fault) applied at a PRNG-chosen applicable position; " +
-		"plus every truncation/inflation of the outer hello's length-prefixed vectors (R14, judged only for 'never accepted' and alert consistency). Each faulty offer is authentically sealed (so the server decrypts it) " +
+		"the same rules applied to the RETRIED hello after an accepted first hello and a HelloRetryRequest (workload retry); plus every truncation/inflation of the outer hello's length-prefixed vectors (R14, judged only for 'never accepted' and alert consistency). Each faulty offer is authentically sealed (so the server decrypts it) " +
 		"and an unfaulted control of the same layout must be accepted. distinct = distinct (rule, parameter, layout: #inner exts, run, pad) cases that reached the rule (control accepted)")
 	r.Assume("independent HPKE sender and generator (validated against crypto/tls at start of run)",
 		"allowed error classes are kept as wide as the draft allows: illegal_parameter for R1-R7 and R9-R13, illegal_parameter or decode_error for R8 and R14")
